@@ -416,7 +416,11 @@ def twins(rep: Report, prog: Program) -> None:
             # neither twin exists under its old name: merged into one shared helper elsewhere (then there is nothing to
             # compare) or dissolved into the callers (then the callers' skeletons, compared below, contain its effects)
             try:
-                same = prog.func(qa) is prog.func(qb)
+                ma, mb = prog.func(qa), prog.func(qb)
+                same = ma is mb
+                if not same:
+                    pairs.append((ma.qual, mb.qual))  # both twins moved (each found by its unique name): compared like any other pair
+                    continue
             except AnalysisError:
                 same = None
                 tail = qa.split(":", 1)[1]
@@ -611,6 +615,8 @@ def run(rep: Report, prog: Program, tier: str) -> None:
 
     worker_pool(rep, "R12.7", prog)
     rep.floor("R12.7", 1)
+    defaults_agree(rep, "R12.8", prog)
+    rep.floor("R12.8", 10)
     twins(rep, prog)
     call_vs_execute(rep, prog, tier)
     # Policy level: call() and execute() make the same breaker record for the same ending
@@ -619,6 +625,47 @@ def run(rep: Report, prog: Program, tier: str) -> None:
     from .c09 import record_by_outcome
 
     record_by_outcome(rep, "R12.4", "R12.4b", prog)
+
+
+def defaults_agree(rep: Report, rid: str, prog: Program) -> None:
+    """every layer that lets the caller omit a retry parameter omits it to the same value: the defaults of the
+    like-named constructor parameters of Retry / AsyncRetry / RetryPolicy / AsyncRetryPolicy / _BaseRetryPolicy, of
+    the `retry` decorator and of the RetryConfig fields are the same expression (all entry points with all defaults
+    then run the same policy)"""
+    rep.rule(rid, "defaults agree: a retry parameter left out means the same in every entry point - constructor defaults of Retry, AsyncRetry, RetryPolicy, AsyncRetryPolicy, _BaseRetryPolicy, the @retry decorator and the RetryConfig fields are equal per parameter name")
+    sources: dict[str, dict[str, str]] = {}
+    quals = [
+        "redress.policy.base:_BaseRetryPolicy.__init__", "redress.policy.retry_sync:Retry.__init__", "redress.policy.retry_async:AsyncRetry.__init__",
+        "redress.policy.wrappers:RetryPolicy.__init__", "redress.policy.wrappers:AsyncRetryPolicy.__init__", "redress.policy.decorator:retry",
+    ]
+    for q in quals:
+        fi = prog.funcs.get(q)
+        if fi is None:
+            continue
+        rep.analysed(q)
+        for pname, d in fi.param_defaults().items():
+            if pname in RETRY_CTOR_PARAMS:
+                sources.setdefault(pname, {})[q] = ast.unparse(d)
+    cfgc = next((c for c in prog.classes.values() if c.name == "RetryConfig"), None)
+    if cfgc is not None:
+        ren = {v: k for k, v in RENAMES["from_config"].items()}
+        for f in prog.all_fields(cfgc):
+            d = prog.field_default(cfgc, f)
+            pname = ren.get(f, f)
+            if d is not None and pname in RETRY_CTOR_PARAMS and not (isinstance(d, ast.Call) and ast.unparse(d.func).split(".")[-1] == "field"):
+                sources.setdefault(pname, {})[cfgc.qual] = ast.unparse(d)
+    for pname in RETRY_CTOR_PARAMS:
+        vals = sources.get(pname, {})
+        if len(vals) < 2:
+            continue
+        rep.instance(rid, f"default|{pname}", {"parameter": pname, "defaults": vals} if len(rep.samples) < 20 else None)
+        distinct = sorted(set(vals.values()))
+        if len(distinct) == 1:
+            rep.ok(rid)
+        else:
+            common = max(distinct, key=lambda v: sum(1 for x in vals.values() if x == v))
+            odd = sorted(q for q, v in vals.items() if v != common)
+            rep.fail(rid, f"default|{pname}|{odd[0].split(':')[-1]}", f"parameter `{pname}` defaults to {vals[odd[0]]} in {odd[0]} but to {common} elsewhere: a caller who leaves it out gets a different policy depending on the entry point", where=prog.funcs[odd[0]].where() if odd[0] in prog.funcs else "", function=odd[0])
 
 
 def sugar_setattr(rep: Report, rid: str, prog: Program) -> None:
